@@ -85,11 +85,37 @@ def apply_sel(sel: Dict[str, Any], loc: Tuple, v: Any) -> List[Tuple[Tuple, Any]
     raise ValueError(f"selector kind {t} not supported by the C18 reference")
 
 
-def apply_child_seg(seg: Dict[str, Any], nodes: List[Tuple[Tuple, Any]]) -> List[Tuple[Tuple, Any]]:
+class Raise(Exception):
+    """The reference's own 'recursion limit exceeded'."""
+
+
+def is_embedded_desc(sel: Dict[str, Any]) -> bool:
+    e = sel.get("e") if sel.get("t") == "filter" else None
+    return bool(e and e.get("t") == "rel" and len(e["q"]["segs"]) == 1 and e["q"]["segs"][0]["k"] == "desc")
+
+
+def apply_child_seg(seg: Dict[str, Any], nodes: List[Tuple[Tuple, Any]], limit: float = INF, stats: Any = None) -> List[Tuple[Tuple, Any]]:
     out = []
     for loc, v in nodes:
         for sel in seg["sels"]:
-            out.extend(apply_sel(sel, loc, v))
+            if is_embedded_desc(sel):
+                # [?@..x]: the embedded descendant segment is applied to every child
+                # (in order); a child nested deeper than the limit raises
+                inner = sel["e"]["q"]["segs"][0]
+                for k, c in children(v):
+                    if stats is not None:
+                        stats["max_nesting"] = max(stats["max_nesting"], nesting(c))
+                    status, res, work = descend(inner, [((), c)], limit, 2_000_000)
+                    if stats is not None:
+                        stats["work"] += work
+                    if status == "raise":
+                        raise Raise
+                    if status == "work-cap":
+                        raise ValueError("work cap")
+                    if res:
+                        out.append((loc + (k,), c))
+            else:
+                out.extend(apply_sel(sel, loc, v))
     return out
 
 
@@ -123,9 +149,18 @@ def expected(qast: Dict[str, Any], doc: Any, limit: int, work_cap: int = 2_000_0
     status = "ok"
     work = 0
     max_nest: float = 0
+    stats = {"max_nesting": 0, "work": 0}
     for seg in qast["segs"]:
         if seg["k"] == "child":
-            nodes = apply_child_seg(seg, nodes)
+            try:
+                nodes = apply_child_seg(seg, nodes, limit, stats)
+            except Raise:
+                return {"status": "raise", "work": work + stats["work"], "max_nesting": max(max_nest, stats["max_nesting"])}
+            except ValueError:
+                return {"status": "unknown", "work": work, "max_nesting": max_nest}
+            max_nest = max(max_nest, stats["max_nesting"])
+            work += stats["work"]
+            stats["work"] = 0
         else:
             max_nest = max([nesting(v) for _l, v in nodes] or [0])
             # a scalar input node is "visited" at depth 1 too
